@@ -3,6 +3,7 @@ import json, os, sys, time, random, traceback
 import z3
 import mpmath as mp
 from . import engine as E
+from . import state as ST
 from .sym import EngineError
 
 VERIF = os.path.dirname(os.path.dirname(os.path.abspath(__file__)))
@@ -160,23 +161,51 @@ class Prop:
         cands = []
         m = res.get('model')
         if m is not None and symbols:
-            env = E.model_env(m, symbols)
+            names = list(symbols) + [k for k in m if k.endswith(ST.HIST) and k[:-len(ST.HIST)] in symbols]
+            env = E.model_env(m, names)
             if env is not None:
                 cands.append(env)
         cands += list(pool)
         found = None
+
+        def run(w):
+            try:
+                return refute(w)
+            except EngineError:
+                raise
+            except Exception:                # the real function raising on a domain input is itself information
+                return None
         if refute is not None:
             for w in cands:
-                try:
-                    r = refute(w)
-                except EngineError:
-                    raise
-                except Exception as e:       # the real function raising on a domain input is itself information
-                    r = None
+                hist = {k[:-len(ST.HIST)]: v for k, v in w.items() if isinstance(k, str) and k.endswith(ST.HIST)}
+                cur = {k: v for k, v in w.items() if not (isinstance(k, str) and k.endswith(ST.HIST))}
+                if ST.STATE:
+                    ST.restore()
+                if hist:
+                    run(dict(cur, **hist))   # the earlier call of the two-call history the model describes
+                r = run(cur)
                 if r:
                     found = dict(r)
-                    found.setdefault('input', w)
+                    found.setdefault('input', cur)
+                    if hist:
+                        found['history_input'] = dict(cur, **hist)
                     break
+            if not found and ST.STATE:
+                # written module state and no model: two-call histories over the witness pool, on the real code
+                pl = [w for w in cands if not any(isinstance(k, str) and k.endswith(ST.HIST) for k in w)][:6]
+                for w1 in pl:
+                    for w2 in pl:
+                        if w1 is w2 or found:
+                            continue
+                        ST.restore()
+                        run(w1)
+                        r = run(w2)
+                        if r:
+                            found = dict(r)
+                            found.setdefault('input', w2)
+                            found['history_input'] = w1
+            if ST.STATE:
+                ST.restore()
         base = dict(function=function, path=path, solver_result=res['result'], backend=res.get('backend'),
                     solver_model=str(m)[:2000] if m is not None else None, layer='P')
         if found:
@@ -283,6 +312,30 @@ class Prop:
 
     # ------------------------------------------------------------------ finish
     def finish(self, level='proof', checker_cmd=None, explanation=None):
+        if ST.FINDINGS:
+            # written module state (vp/state.py): one obligation per explored contract thunk
+            agg = {}
+            for f_ in ST.FINDINGS:
+                a_ = agg.setdefault(f_['label'], dict(plain=0, history=0, dependent=0, unknown=0, example=None))
+                for k_ in ('plain', 'history', 'dependent', 'unknown'):
+                    a_[k_] += f_[k_]
+                a_['example'] = a_['example'] or f_['example']
+            what = '; '.join(ST.describe())[:300]
+            for label, a_ in agg.items():
+                note = 'after an arbitrary earlier call (renamed symbols) every path returns the value of a plain path, free of history symbols: %d plain, %d history, %d dependent, %d undecided; %s' % (
+                    a_['plain'], a_['history'], a_['dependent'], a_['unknown'], a_['example'] or '')
+                if a_['dependent']:
+                    self.oblige('state_independence[%s]' % label, what, '%d history paths' % a_['history'],
+                                dict(result='sat', backend='two-call history exploration, z3', ms=0), strict=True, note=note)
+                else:
+                    res_ = 'discharged' if not a_['unknown'] else 'unknown'
+                    self.obl.append(dict(name='state_independence[%s]' % label, function=what, path='%d history paths' % a_['history'], result=res_,
+                                         backend='two-call history exploration, z3', ms=0, note=note))
+                    if a_['unknown']:
+                        line = 'UNDECIDED property=%s obligation=state_independence[%s] (implication between path conditions not decided in the budget)' % (self.pid, label)
+                        self.lines.append(line)
+                        print(line, flush=True)
+            ST.FINDINGS.clear()
         counted = [o for o in self.obl if not o.get('known_finding')]
         n = len(counted)
         nd = sum(o['result'] == 'discharged' for o in counted)
@@ -308,6 +361,7 @@ class Prop:
                    solver_ms=sum((o.get('ms') or 0) for o in self.obl),
                    solver_queries=len(E.QLOG),
                    loops_cut=self.loops, summaries_assumed=self.summaries,
+                   written_module_state=ST.describe(),
                    engine_crosscheck=self.xcheck,
                    known_findings_reported=[list(k) for k in self.known_hit],
                    unproved_identities=[o['name'] for o in self.obl if o.get('unproved_identity')],
